@@ -57,7 +57,7 @@ type SentEvent struct {
 type eventSubscriberState struct {
 	handler      *Handler
 	conn         jsonrpc.Conn
-	l1HeadNumber uint64
+	l1Head       core.L1Head
 	deduper      *rpccore.PreConfirmedDeduper[SentEvent]
 	eventMatcher blockchain.EventMatcher
 }
@@ -82,15 +82,17 @@ func newEventSubscriber(
 		return subscriber{}, rpcErr
 	}
 
-	l1Head, err := handler.bcReader.L1Head()
-	if err != nil {
-		return subscriber{}, rpccore.ErrInternal.CloneWithData(err.Error())
+	// A node that has not stored an L1 head yet (before its first L1 update, or with L1
+	// verification disabled) has nothing accepted on L1: l1Head() returns the empty head.
+	l1Head, rpcErr := handler.l1Head()
+	if rpcErr != nil {
+		return subscriber{}, rpcErr
 	}
 
 	state := &eventSubscriberState{
 		handler:      handler,
 		conn:         conn,
-		l1HeadNumber: l1Head.BlockNumber,
+		l1Head:       l1Head,
 		deduper:      rpccore.NewPreConfirmedDeduper[SentEvent](),
 		eventMatcher: blockchain.NewEventMatcher(fromAddrs, keys),
 	}
@@ -288,7 +290,7 @@ func (s *eventSubscriberState) sendHistoricalEvents(
 		// Historical replay is bounded to the canonical tip, so every event
 		// here is canonical: L1-finalised at or below the L1 head, else L2.
 		finalityStatus := TxnAcceptedOnL2
-		if events[i].BlockNumber <= s.l1HeadNumber {
+		if isL1Verified(events[i].BlockNumber, s.l1Head) {
 			finalityStatus = TxnAcceptedOnL1
 		}
 
